@@ -311,6 +311,9 @@ extern int64_t hwloc_fallback_memsize(void);
 extern int hwloc__object_cpusets_compare_first(hwloc_obj_t obj1, hwloc_obj_t obj2);
 extern void hwloc__reorder_children(hwloc_obj_t parent);
 
+/* Update total memory, symmetric subtree, group depths and cached objects after Groups were inserted in a loaded topology. */
+extern void hwloc__update_after_group_insertion(struct hwloc_topology *topology);
+
 extern void hwloc_topology_setup_defaults(struct hwloc_topology *topology);
 extern void hwloc_topology_clear(struct hwloc_topology *topology);
 
